@@ -94,7 +94,7 @@ Proof.
           - rewrite fin_seq_cons. inversion Hs; subst. inversion HFs; subst. apply IH; assumption. }
         apply Hgen; assumption.
   - (* Rep *) cbn [wf] in Hwf. apply andb_prop in Hwf as (_ & Hwf). destruct q; cbn [quant channels]; try apply keys_ok_dmap; apply IHp; exact Hwf.
-  - (* For *) cbn [wf] in Hwf. apply andb_prop in Hwf as (_ & Hwf). apply andb_prop in Hwf as (_ & Hwf).
+  - (* For *) cbn [wf] in Hwf. apply andb_prop in Hwf as (_ & Hwf).
     destruct q; cbn [quant]; apply keys_ok_dmap; apply IHp; exact Hwf.
   - (* Map *) cbn [wf] in Hwf. apply andb_prop in Hwf as (_ & Hwf). specialize (IHp q Hwf).
     assert (Hq : quant q (Map p pm cm) = map_dict pm cm (quant q p)) by (destruct q; reflexivity). rewrite Hq, map_dict_rename.
